@@ -37,7 +37,7 @@ cfg("C01_quick", 1, 1, 1, 1, [a for a in BASE if a != "SetFlag"] + ["MoveSame", 
 # property-group bookkeeping under list removals, in both orders (data in overlapping groups)
 cfg("C01pg_quick", 0, 1, 3, 2, ["CreateObject", "AddData", "AddToGroup", "ScrubData", "RemoveFromGroup", "Close", "Open"], 8,
     names=("a", "b"), vals=(1,))
-cfg("C01_thorough", 2, 1, 2, 1, BASE + ["MoveSame", "AddDataFails", "SaveAs", "CreateDeferred", "SetMeta"], 6, names=("a", "b"))
+cfg("C01_thorough", 2, 1, 2, 1, BASE + ["MoveSame", "AddDataFails", "SaveAs", "CreateDeferred", "SetMeta"], 5, names=("a", "b"))
 # --- C02: layout of every closed file: removals, re-parenting, copies, failed writes, closes
 C02A = ["CreateGroup", "CreateObject", "AddData", "Move", "MoveSame", "AddToGroup", "RemoveViaWorkspace", "RemoveViaParent",
         "Copy", "Close", "Open", "AddDataFails"] + GC
@@ -50,7 +50,7 @@ cfg("C02_thorough", 2, 2, 2, 2, C02A + ["RemoveFromGroup", "SaveAs"], 6, names=(
 C05A = ["CreateGroup", "CreateObject", "AddData", "AddToGroup", "SetFlag", "RemoveViaWorkspace", "RemoveViaParent", "RemovePG",
         "Close", "Open", "Copy"] + GC
 cfg("C05_quick", 1, 1, 2, 2, C05A, 5, names=("a", "b"), vals=(1,))
-cfg("C05_thorough", 2, 1, 2, 2, C05A + ["RemoveFromGroup", "Move"], 7, names=("a", "b"), vals=(1,))
+cfg("C05_thorough", 2, 1, 2, 2, C05A + ["RemoveFromGroup", "Move"], 6, names=("a", "b"), vals=(1,))
 # --- C06: identifiers: explicit uids, collisions with live entities of any kind, re-creation, copies
 C06A = ["CreateGroup", "CreateObject", "AddData", "CreateWithUid", "RemoveViaWorkspace", "RemoveViaParent", "Copy", "Close",
         "Open"] + GC
@@ -68,7 +68,7 @@ cfg("C09_quick", 1, 1, 1, 1, [a for a in BASE if a != "LookupDead"] + ["MoveSame
 # bystanders: several data sets (shared types), visual parameters, shallow copies, metadata
 cfg("C09by_quick", 0, 2, 2, 1, ["CreateObject", "AddData", "AddVisual", "Copy", "SetVal", "SetMeta", "Rename", "AddToGroup",
                                 "RemoveViaWorkspace", "Close", "Open"], 5, names=("a",), vals=(1, 2))
-cfg("C09_thorough", 2, 1, 2, 2, BASE + ["MoveSame", "StripOpt", "AddDataFails", "SetMeta", "AddVisual"], 6, names=("a", "b"), vals=(1, 2))
+cfg("C09_thorough", 2, 1, 2, 2, BASE + ["MoveSame", "StripOpt", "AddDataFails", "SetMeta", "AddVisual"], 5, names=("a", "b"), vals=(1, 2))
 # --- C11: close / abort at every point (also after a failed operation), calls on a closed workspace, re-open,
 #          save_as, fetch_active_workspace re-opening in another mode
 C11A = ["CreateGroup", "CreateObject", "AddData", "SetVal", "Rename", "RemoveViaWorkspace", "RemoveViaParent", "Close", "Open",
@@ -78,7 +78,7 @@ cfg("C11_thorough", 2, 1, 2, 1, C11A + ["Move", "Copy", "AddToGroup", "Collect",
 # --- C12: copies of data / objects / groups, deep and shallow, then edits of copy and source, re-open
 C12A = ["CreateGroup", "CreateObject", "AddData", "AddToGroup", "Copy", "SetVal", "SetMeta", "Rename", "Close", "Open"]
 cfg("C12_quick", 1, 2, 2, 1, C12A, 5, names=("a", "b"), vals=(1, 2))
-cfg("C12_thorough", 3, 2, 4, 2, C12A + ["SetFlag", "Move"], 6, names=("a", "b"), vals=(1, 2))
+cfg("C12_thorough", 2, 2, 3, 2, C12A + ["SetFlag", "Move"], 5, names=("a", "b"), vals=(1, 2))
 # visual parameters and metadata of copies (aliasing between copy and source)
 cfg("C12vp_quick", 1, 2, 2, 1, ["CreateObject", "AddVisual", "AddData", "Copy", "SetMeta", "RemoveViaWorkspace", "Close", "Open"], 6,
     names=("a",), vals=(1, 2))
